@@ -1,6 +1,7 @@
 from common import COMMON_ASSUME
 
 PROP = dict(
+    technique='property-based testing (rapidcheck byte-string cases, boundary sweeps, exhaustive 2^32 sub-domain in the thorough tier) with round-trip, four-way length agreement, reference-length and canary oracles in four build configurations; libFuzzer in the thorough tier',
     harness=['c01_scalar.c', 'vf_ref.c'],
     level_text=('generated-input search: every scalar family, every function '
                 'and macro entry point, legal fixed widths, alignments, in the '
